@@ -157,7 +157,7 @@ pub fn gen_case(src: &mut Src, _i: usize) -> Case {
         tail.push(gen::inert(src, &g));
     }
     case.tail = tail;
-    case.nums = vec![src.chance(1, 6) as usize];
+    case.nums = vec![src.chance(1, 2) as usize];
     case
 }
 
@@ -293,7 +293,7 @@ pub fn run(env: &Env) -> PropRun {
         &|i| {
             let mut c = Case::new(7, 4, None).feed(states[i / ni]);
             c.tail = vec![items[i % ni].clone()];
-            c.nums = vec![((i % 7) == 0) as usize];
+            c.nums = vec![1]; // probe battery on every enumerated item
             Some(c)
         },
         &j,
